@@ -315,7 +315,7 @@ func TestC17Small(t *testing.T) {
 	rep.Extra["semaphore_wait_calls_returned"] = grants
 	rep.Extra["semaphore_steps_with_blocked_waiter"] = blocked
 	if vs.empty() && (blocked == 0 || grants == 0) {
-		core.HarnessError("vacuous: semaphore never blocked a waiter")
+		rep.Vacuous("vacuous: semaphore never blocked a waiter")
 	}
 
 	// --- addrlist
@@ -372,7 +372,7 @@ func TestC17Small(t *testing.T) {
 	rep.Extra["addrlist_steps_with_eviction"] = stTotal.evictions
 	rep.Extra["addrlist_steps_at_cap"] = stTotal.atCap
 	if vs.empty() && (stTotal.evictions == 0) {
-		core.HarnessError("vacuous: addrlist never had to evict")
+		rep.Vacuous("vacuous: addrlist never had to evict")
 	}
 	rep.Evaluations = semRuns + alRuns
 	rep.Distinct = semRuns + alRuns
